@@ -75,20 +75,21 @@ AtIdx(s, idx) ==
     [n \in 1..Cardinality(idx) |->
         s[CHOOSE i \in idx : Cardinality({j \in idx : j < i}) = n - 1]]
 
-\* sort a sequence of [k, v] with distinct keys by key
+\* sort a sequence of [k, v] with distinct keys by key (keys are indices into KeyOrder:
+\* walk the key universe once; the large collections need better than cubic)
 SortKVs(s) ==
-    [n \in 1..Len(s) |->
-        CHOOSE e \in ElemsOf(s) :
-            Cardinality({f \in ElemsOf(s) : KeyPos[f.k] < KeyPos[e.k]}) = n - 1]
+    LET ks == {s[i].k : i \in 1..Len(s)}
+        byKey == [k \in ks |-> CHOOSE e \in ElemsOf(s) : e.k = k]
+        ordered == SelectSeq([k \in 1..Len(KeyOrder) |-> k], LAMBDA k : k \in ks)
+    IN [n \in 1..Len(ordered) |-> byKey[ordered[n]]]
 
 \* the pairs of s that are the first with their key, in order
 FirstPerKey(s) ==
     AtIdx(s, {i \in 1..Len(s) : \A j \in 1..(i - 1) : s[j].k # s[i].k})
 
 First(s, k) ==
-    IF \E i \in 1..Len(s) : s[i].k = k
-    THEN s[CHOOSE i \in 1..Len(s) : s[i].k = k /\ \A j \in 1..(i - 1) : s[j].k # k].v
-    ELSE None
+    LET at == {i \in 1..Len(s) : s[i].k = k}
+    IN IF at = {} THEN None ELSE s[CHOOSE i \in at : \A j \in at : i <= j].v
 
 HasDup(s) == \E i, j \in 1..Len(s) : i < j /\ s[i].k = s[j].k
 
@@ -166,10 +167,11 @@ Segs(t) ==
       [] t.op = "metric" -> <<[ord |-> FALSE, kvs |-> SortKVs(MetricPrefix)]>> \o Segs(t.t)
       [] t.op = "and" -> Segs(t.l) \o Segs(t.r)
       [] t.op = "dedup" ->
-            <<[ord |-> FALSE,
-               kvs |-> SortKVs(FirstPerKey(Concat([i \in 1..Len(Segs(t.t)) |-> Segs(t.t)[i].kvs])))]>>
+            LET inner == Segs(t.t)
+            IN <<[ord |-> FALSE,
+                  kvs |-> SortKVs(FirstPerKey(Concat([i \in 1..Len(inner) |-> inner[i].kvs])))]>>
 
-Flat(t) == Concat([i \in 1..Len(Segs(t)) |-> Segs(t)[i].kvs])
+Flat(t) == LET segs == Segs(t) IN Concat([i \in 1..Len(segs) |-> segs[i].kvs])
 
 Get(t, k) == First(Flat(t), k)
 
@@ -303,13 +305,14 @@ SpecGrow == InitGrow /\ [][Grow]_vars
 (* Properties; all are about `tree` *)
 
 \* lookup = the first value enumeration yields, or nothing
-GetIsFirst == \A k \in AllKeys : GetB(tree, k) = Get(tree, k)
+GetIsFirst == LET flat == Flat(tree) IN \A k \in AllKeys : GetB(tree, k) = First(flat, k)
 
 \* de-duplication yields every key once with that first value
 DedupOnceFirst ==
     LET d == FE([op |-> "dedup", t |-> tree], 0, 0).vis
+        flat == Flat(tree)
     IN /\ ~HasDup(d)
-       /\ ElemsOf(d) = {[k |-> k, v |-> Get(tree, k)] : k \in {e.k : e \in ElemsOf(Flat(tree))}}
+       /\ ElemsOf(d) = {[k |-> k, v |-> First(flat, k)] : k \in {e.k : e \in ElemsOf(flat)}}
 
 \* a collection that claims uniqueness never enumerates a key twice
 UniqueClaimSound == UniqB(tree) => ~HasDup(Flat(tree))
@@ -322,10 +325,11 @@ BreakNs(len) ==
 
 \* enumeration stops as soon as the visitor asks it to
 BreakStops ==
-    \A n \in BreakNs(Len(Flat(tree))) :
-        LET r == FE(tree, 0, n)
-        IN /\ Len(r.vis) = (IF n <= Len(Flat(tree)) THEN n ELSE Len(Flat(tree)))
-           /\ r.brk = (n <= Len(Flat(tree)))
+    LET len == Len(Flat(tree))
+    IN \A n \in BreakNs(len) :
+          LET r == FE(tree, 0, n)
+          IN /\ Len(r.vis) = (IF n <= len THEN n ELSE len)
+             /\ r.brk = (n <= len)
 
 \* the transcription enumerates what the statement specifies (any order within an
 \* unordered segment), and unordered segments never repeat a key
@@ -340,16 +344,19 @@ Adm(vis, segs) ==
             /\ Adm(SubSeq(vis, n + 1, Len(vis)), Tail(segs))
 
 EnumIsSpec ==
-    /\ Adm(FE(tree, 0, 0).vis, Segs(tree))
-    /\ \A i \in 1..Len(Segs(tree)) : ~Segs(tree)[i].ord => ~HasDup(Segs(tree)[i].kvs)
+    LET segs == Segs(tree)
+    IN /\ Adm(FE(tree, 0, 0).vis, segs)
+       /\ \A i \in 1..Len(segs) : ~segs[i].ord => ~HasDup(segs[i].kvs)
 
 -----------------------------------------------------------------------------
 (* spec -> code: the collection and what the statement predicts for it *)
 Replay(t) ==
+    LET flat == Flat(t)
+    IN
     [tree |-> t,
      segs |-> Segs(t),
      keys |-> KeyOrder,
-     get |-> [i \in 1..Len(KeyOrder) |-> [k |-> i, v |-> Get(t, i)]],
+     get |-> [i \in 1..Len(KeyOrder) |-> [k |-> i, v |-> First(flat, i)]],
      uniqB |-> UniqB(t),
      enumB |-> FE(t, 0, 0).vis]
 
